@@ -174,6 +174,9 @@ def do_check(prop, tier, seed, repo, args):
               merged["runs"], merged["steps"], merged["distinct_nontrivial"],
               merged["distinct_final_states"], wall, merged["runs"] / max(wall_run, 1e-9) * 3600,
               len(mine), len(foreign)))
+    if foreign:
+        print("observations attributed to other properties (no alarm from this check): %s" % (
+            {"%s/%s" % c: len(r) for c, r in sorted(foreign.items())},))
     faults = {k: n for k, n in sorted(st.items()) if k.startswith("fault.")}
     if faults:
         print("faults fired: %s" % faults)
